@@ -92,12 +92,32 @@ Definition run (c : case) : sx :=
       end
   end.
 
+(* When must the CONSTRUCTION succeed?  The list handed to Pipeline is completable (Model/AutoGenSpec.v) and none of
+   the other construction-time validations of pipefunc (C12) can object: plain identifiers, no output among the own
+   parameters, bound names are parameters, every function satisfies func_ok (MapSpec inputs are unbound parameters ...),
+   no parameter carries defaults in two functions, and c_funcs is in a topological order (no cycle).
+   Deliberately conservative: when in doubt nothing is demanded. *)
+Fixpoint topo (fs : list mfunc) : bool :=
+  match fs with
+  | [] => true
+  | f :: t => negb (intersects (fparams f) (flat_map fouts (f :: t))) && topo t
+  end.
+
+Definition constructible (c : Run_C01.case) (order : list nat) : bool :=
+  completable (permuted (c_funcs c) order)
+  && forallb (fun f => func_ok f
+                       && forallb is_ident (fouts f ++ fparams f)
+                       && negb (intersects (fouts f) (fparams f))
+                       && forallb (fun b => mem_str (fst b) (fparams f)) (fbound f)
+                       && forallb (fun b => mem_str (fst b) (fparams f)) (fdefaults f)) (c_funcs c)
+  && nodup_str (flat_map (fun f => map fst (fdefaults f)) (c_funcs c))
+  && topo (c_funcs c).
+
 (* The statement for CAuto: the reported MapSpecs are an admissible completion of the user-level list
    (Model/AutoGenSpec.v), and with them the request is answered as C01 demands (Run_C01.spec_ok: the denotation of the
    effective list; a request that is valid with these MapSpecs is not refused by map) - provided the inputs conform
    (Model/MapPrepare.conforming); nothing is demanded for non-conforming inputs.
-   Nothing is demanded when CONSTRUCTION fails: that a completable list is never refused is proved for the model
-   (C01_autogen_never_refuses) and transferred by the equality of observations. *)
+   A construction error is acceptable only when the list is not `constructible`. *)
 Definition spec_ok (c : case) (o : sx) : bool :=
   match c with
   | CReq c => Run_C01.spec_ok c o
@@ -116,7 +136,7 @@ Definition spec_ok (c : case) (o : sx) : bool :=
           str_eqb t (s "ok") && with_specs specs (fun r => Run_C01.spec_ok r (SL [SS t; outs; calls]))
       | SL [SS t; e; SL specs] =>
           str_eqb t (s "maperr") && with_specs specs (fun r => Run_C01.spec_ok r e)
-      | SL [SS t; SS _] => str_eqb t (s "err")
+      | SL [SS t; SS _] => str_eqb t (s "err") && negb (constructible c order)
       | _ => false
       end
   end.
